@@ -11,7 +11,7 @@ pub fn def() -> PropDef {
     PropDef { id: "C07", level: "exploration", run, case, render }
 }
 fn opts() -> RawGenOpts {
-    RawGenOpts { abstracts: true, pico: true, annotations: true, nets_need_label_purpose: true, nonrect_nets: true, max_cells: 5, closed_polygons: false, abs_only_cells: false, shared_purpose_numbers: true, contact_near_bend: true }
+    RawGenOpts { abstracts: true, pico: true, annotations: true, nets_need_label_purpose: true, nonrect_nets: true, max_cells: 5, closed_polygons: false, abs_only_cells: false, shared_purpose_numbers: true, contact_near_bend: true, instances_of_abstracts: false }
 }
 
 /// canonical shape for comparison: rectangles by normalised corners (rectangle-shaped polygons
